@@ -162,7 +162,7 @@ def check(rec, kind, idx, rng, tier):
         base = dict(base0, kwargs=kw, zone_ids_kind=zlabel, cat_ids_kind=clabel)
         rec.evaluation()
         out = rec.call(crosstab, za, va, **kw)
-        if idx == 0:
+        if len(rec.samples) < 1:
             rec.sample(base)
         if hasattr(out, 'exc'):
             rec.violation('crosstab.raises', 'crosstab raised %r' % out, base)
